@@ -22,7 +22,10 @@ LEVEL_TEXT = ('Bounded model checking of the real client receive path (message l
               'real serialised request cut at every one / two positions, with the requested blob verified or not, listed as completed '
               'or not, and any sendfile result: one response, availability lists exactly the completed blobs asked for, blob bytes are '
               'sent once and only for a verified blob after a header naming exactly its hash and length, a failed send closes the '
-              'connection; requests of 1200 bytes or more and a catalogue of malformed requests close it and serve nothing.')
+              'connection; requests of 1200 bytes or more and a catalogue of malformed requests close it and serve nothing.  '
+              '_download_blob on every combination of response parts (availability absent / empty / right / wrong, rate accepted or '
+              'not, blob response absent / error / right / wrong hash, length matching or not, writer accepting or rejecting): the '
+              'transfer continues only for the right hash, length and rate; otherwise connection and writer are closed.')
 LEVEL_NOTE = ('Trusted: z3, the interpreter (every path replayed natively), stub transport / writer / blob.  The body is filler that '
               'contains no "}", optionally after a JSON-like prefix from a fixed catalogue; other bodies are OUTSIDE this claim, as '
               'are timeouts, keep-alive sequences of several requests, and misbehaving peers beyond the malformed-request catalogue.')
@@ -30,7 +33,7 @@ ASSUMPTIONS = ['body content = filler bytes 0x78, optionally preceded by one of 
                're-parses a first body fragment as JSON); other bodies containing "}" are not covered',
                'writer and blob are recording stubs; the response future is the model future of C01']
 OUTSIDE = ['bodies containing "}"', 'timeouts (asyncio.wait_for is the identity on an immediately completing stub)', 'several requests on one connection',
-           'lying servers (wrong hash/length, corrupted, short, excess or unsolicited bytes); _download_blob response validation']
+           'lying servers that send corrupted, short, excess or unsolicited bytes (the writer side is C01)']
 
 BLOB_HASH = 'ab' * 48
 
@@ -185,6 +188,67 @@ def write_clamp(vm):
     if p._blob_bytes_received != received + want:
         return 'VIOLATION: received-bytes counter not advanced by the forwarded amount'
     return 'ok'
+
+
+# ------------------------------------------------------------------------------------------------ response validation
+class VerifiedEvent:
+    async def wait(self):
+        return True
+
+
+def validate_response(vm):
+    """_download_blob on every combination of response parts a (lying) server can send: the transfer goes on only if the response
+    lists exactly the requested blob as available, accepts the rate and announces that blob with the expected length; in every
+    other case the connection and the writer are closed and no protocol object is handed back."""
+    from lbry.blob_exchange.serialization import BlobErrorResponse
+    from lbry.error import InvalidDataError
+    p = make_client(vm)
+    p.transport = RecordingTransport()
+    known_length = (None, 1000)[vm.pick('length_known_in_advance', 2)]
+    p.blob.length = known_length
+    p.blob.verified = VerifiedEvent()
+    parts = []
+    avail = vm.pick('availability', 5)           # absent / empty / exactly the blob / another blob / the blob and another
+    if avail > 0:
+        parts.append(BlobAvailabilityResponse([[], [BLOB_HASH], [OTHER_HASH], [BLOB_HASH, OTHER_HASH]][avail - 1], 'bAddress'))
+    price = vm.pick('price', 3)                  # absent / accepted / too low
+    if price > 0:
+        parts.append(BlobPriceResponse('RATE_ACCEPTED' if price == 1 else 'RATE_TOO_LOW'))
+    kind = vm.pick('blob_response', 4)           # absent / error / the blob / another blob
+    announced = (1000, 999)[vm.pick('announced_length', 2)]
+    if kind == 1:
+        parts.append(BlobDownloadResponse(incoming_blob={'error': 'BLOB_UNAVAILABLE'}))
+    elif kind > 1:
+        parts.append(BlobDownloadResponse(incoming_blob={'blob_hash': BLOB_HASH if kind == 2 else OTHER_HASH, 'length': announced}))
+    p._response_fut.set_result(BlobResponse(parts))
+    writer_ok = vm.new_bool('writer_accepts_the_bytes')
+    writer = p.writer
+    writer.finished = ModelFuture()
+    if writer_ok:
+        writer.finished.set_result(None)
+    else:
+        writer.finished.set_exception(InvalidDataError('bad blob'))
+    transport = p.transport
+    try:
+        got, proto = vm.await_(p._download_blob())
+    except Exception as e:
+        return 'VIOLATION: _download_blob raised %s on a server response' % type(e).__name__
+    if len(transport.written) != 1:
+        return 'VIOLATION: the request was not written exactly once'
+    acceptable = price == 1 and kind == 2 and (known_length is None or announced == known_length)
+    if acceptable and writer_ok and avail == 2:
+        if proto is not p or transport.closed:
+            return 'VIOLATION: a valid response and transfer end with the connection closed'
+        return 'ok-downloaded'
+    if acceptable and writer_ok and proto is p and not transport.closed:
+        return 'ok-downloaded-lenient'       # the right blob is announced; the availability part is empty / inconsistent (not required to refuse)
+    if proto is not None:
+        return 'VIOLATION: the connection is handed back although the response or the transfer was not acceptable'
+    if not transport.closed:
+        return 'VIOLATION: the connection stays open after an unacceptable response'
+    if not writer.is_closed:
+        return 'VIOLATION: the blob writer stays open after an unacceptable response'
+    return 'ok-refused'
 
 
 # ------------------------------------------------------------------------------------------------ server side
@@ -400,6 +464,10 @@ def jobs(tier):
     out.append(dict(name='refuse-bad-requests', family='serve', fn='refuse', args=(), loop_bound=400, max_depth=60, cost=50,
                     bounds=dict(malformed='catalogue of %d byte strings' % len(BAD_REQUESTS), oversized='two fragments of 1..3000 bytes'),
                     must_reach=('ok-capped', 'ok-buffered', 'ok-closed')))
+    out.append(dict(name='validate-response', family='validate', fn='validate_response', args=(), loop_bound=400, max_depth=60, cost=500,
+                    bounds=dict(availability='absent / empty / the blob / another / both', price='absent / accepted / too low',
+                                blob_response='absent / error / the blob / another blob', length='known or not, announced equal or not',
+                                writer='accepts or rejects the bytes'), must_reach=('ok-downloaded', 'ok-refused')))
     out.append(dict(name='write-clamp', family='write', fn='write_clamp', args=(), loop_bound=100, max_depth=60, cost=10,
                     bounds=dict(length='1..2 MiB', received='0..length', fragment='1..6 MiB'), must_reach=('ok',)))
     return out
@@ -447,7 +515,18 @@ def _cap_off_by_one(node):
     return False
 
 
+def _length_mismatch_accepted(node):
+    import ast
+    for n in ast.walk(node):
+        if isinstance(n, ast.If) and 'self.blob.length != blob_response.length' in ast.unparse(n.test):
+            n.test = ast.Constant(False)
+            return True
+    return False
+
+
 CANARIES = [
+    dict(name='client-accepts-wrong-length', target='lbry.blob_exchange.client:BlobExchangeClientProtocol._download_blob',
+         mutate=_length_mismatch_accepted, job=dict(family='validate', fn='validate_response', args=(), loop_bound=400, max_depth=60)),
     dict(name='server-sends-unverified-blob', target='lbry.blob_exchange.server:BlobServerProtocol.handle_request', mutate=_serve_unverified,
          job=dict(family='serve', fn='serve', args=(1,), loop_bound=400, max_depth=60)),
     dict(name='request-cap-off-by-one', target='lbry.blob_exchange.server:BlobServerProtocol.data_received', mutate=_cap_off_by_one,
